@@ -232,7 +232,8 @@ pub fn hidden_cases(cs: &mut Cases, st: &mut Stats, or: &mut Oracle, thorough: b
         u.set_user_input(0, r, c, "777").unwrap();
         for &h in hidden {
             if h < 1 || h > last { continue; }
-            if rowwise { u.set_rows_hidden(0, h, h, true).unwrap(); } else { u.set_columns_hidden(0, h, h, true).unwrap(); }
+            // hiding the very last line returns Err after having hidden it (it looks for the next visible line): ignored here
+            if rowwise { let _ = u.set_rows_hidden(0, h, h, true); } else { let _ = u.set_columns_hidden(0, h, h, true); }
         }
         let res = if rowwise { u.move_rows_action(0, i, n, d) } else { u.move_columns_action(0, i, n, d) };
         let obs = match res {
